@@ -824,8 +824,9 @@ def master(tier, seed):
                               "invalid_text_in_race": "see operations with kind invalid in samples"},
         "simulated_time": "not applicable: no clock or timer in the system; logical yield points are reported",
         "real_components": ["OS threads (parked on locks, one runs at a time)", "pyab_experiment", "pydantic", "generated code"],
-        "stubbed_components": ["the OS/GIL scheduler (replaced by seeded baton passing)", "threading.Lock/RLock (simulator-aware locks)",
-                               "sys.stdout/sys.stderr (recording stream)"],
+        "stubbed_components": ["the OS/GIL scheduler (replaced by seeded baton passing)",
+                               "threading.Lock / RLock / Condition / Event / Semaphore, time.sleep, Thread.start / join (simulator-aware)",
+                               "sys.stdout/sys.stderr (recording stream)", "the run's disk: private empty HOME / TMPDIR per forked run"],
         "workers": common.n_workers(),
     }
     common.write_evidence(PROP, tier, seed, cov, wall, len(paths),
